@@ -1,4 +1,5 @@
 import PoxModel.Model.FlowTable
+import PoxModel.Model.BufPool
 /-! # Flow-table state machine — executable model of the FLOW_MOD / timeout paths of the software switch   (core Lean only)
 
 Mirrors (line numbers of `/repo` HEAD):
@@ -25,10 +26,23 @@ match *object*: `unpack(flow_mod=True)` of the transmitted record) and the paylo
 record as transmitted (the code keeps the twelve raw field values but overwrites the wildcard word); nothing in `step` reads it —
 it is what `Spec/OF10Table` identifies the flow by.
 
-Outside the model: `buffer_id` processing after a flow-mod (C18), what actions do to a frame (C12), unknown commands (C13),
-ports that do not exist or are configured down. -/
+`_rx_flow_mod`'s tail — `if ofp.buffer_id is not None: _process_actions_for_packet_from_buffer(ofp.actions, ofp.buffer_id, ofp)`
+(`switch.py:308-310,721-744`) — and the buffering of a table miss (`_buffer_packet`, `:702-719`) are modelled on C18's slot pool
+(`Model/BufPool.Pool`, `alloc`): `bufferUse`, `packetStep`.  What the actions then do to the released frame is C12's subject: the
+model reports *which* stored frame is processed with *which* action list (`Out.release`).
+
+**Code variants.**  Three small repairs are proposed for the open findings C04-1/2/3 (`/verif/fixes/C04-*.diff`).  Until they are
+committed the model has to mirror both trees, so the three places they touch read a `Cfg` (constant in the state):
+`strictMutual` — `is_matched_by(strict=True)` tests "each match encompasses the other" instead of `==`;
+`maskUndefined` — `_rx_flow_mod` drops the undefined wildcard bits 22..31; `statsUnwire` — `_stats_flow/_stats_aggregate`
+normalise the request's match like a flow-mod's.  `Cfg.head` is `/repo` HEAD, `Cfg.repaired` the tree with all three applied; the
+harness probes the real code for which one it runs against.
+
+Outside the model: what actions do to a frame (C12), ports that do not exist or are configured down, actions that send a
+released packet to the controller again (C18's `useCtl`). -/
 namespace Pox.FlowMod
 open Pox.OF Pox.OF.OfMatch
+open Pox.BufPool (Pool alloc)
 
 /-- an `ofp_action_*` as far as the flow-table code looks at it: `isinstance(a, ofp_action_output) and a.port == out_port` -/
 inductive Action where
@@ -38,7 +52,19 @@ inductive Action where
 
 inductive Cmd where
   | add | modify | modifyStrict | delete | deleteStrict
+  /-- any other value of the `command` field -/
+  | unknown (code : Nat)
   deriving DecidableEq, Repr
+
+/-- which of the proposed repairs the code under the model has (see the header) -/
+structure Cfg where
+  strictMutual : Bool
+  maskUndefined : Bool
+  statsUnwire : Bool
+  deriving DecidableEq, Repr
+
+def Cfg.head : Cfg := { strictMutual := false, maskUndefined := false, statsUnwire := false }
+def Cfg.repaired : Cfg := { strictMutual := true, maskUndefined := true, statsUnwire := true }
 
 def OFPP_NONE : Nat := 0xffff
 /-- bit numbers of `OFPFF_SEND_FLOW_REM = 1`, `OFPFF_CHECK_OVERLAP = 2`, `OFPFF_EMERG = 4` -/
@@ -50,6 +76,10 @@ def OFPFMFC_ALL_TABLES_FULL : Nat := 0
 def OFPFMFC_OVERLAP : Nat := 1
 def OFPFMFC_EPERM : Nat := 2
 def OFPFMFC_BAD_EMERG_TIMEOUT : Nat := 3
+def OFPFMFC_BAD_COMMAND : Nat := 4
+def OFPET_BAD_REQUEST : Nat := 1
+def OFPBRC_BUFFER_EMPTY : Nat := 7
+def OFPBRC_BUFFER_UNKNOWN : Nat := 8
 def OFPRR_IDLE_TIMEOUT : Nat := 0
 def OFPRR_HARD_TIMEOUT : Nat := 1
 def OFPRR_DELETE : Nat := 2
@@ -73,7 +103,7 @@ structure EData where
 
 abbrev FEntry := Entry EData
 
-/-- an `ofp_flow_mod` as decoded (`buffer_id` is always `NO_BUFFER` here) -/
+/-- an `ofp_flow_mod` as decoded -/
 structure FlowModMsg where
   cmd : Cmd
   /-- the 40-byte `ofp_match` as transmitted -/
@@ -85,6 +115,15 @@ structure FlowModMsg where
   outPort : Nat
   flags : Nat
   actions : List Action
+  /-- `none` = `NO_BUFFER` (0xffffffff on the wire) -/
+  bufferId : Option Nat := none
+  deriving DecidableEq, Repr
+
+/-- a buffered frame: what the packet library parsed, its length, its ingress port -/
+structure BFrame where
+  hdr : PHdr
+  len : Nat
+  inPort : Nat
   deriving DecidableEq, Repr
 
 structure State where
@@ -92,6 +131,9 @@ structure State where
   /-- `time.time()` in milliseconds -/
   now : Nat
   maxEntries : Nat
+  /-- `_packet_buffer` -/
+  pool : Pool BFrame
+  cfg : Cfg
 
 inductive Op where
   | flowMod (fm : FlowModMsg)
@@ -140,8 +182,11 @@ structure FlowStat where
 inductive Out where
   | flowRemoved (m : RemovedMsg)
   | error (etype code : Nat)
-  /-- table miss: `ofp_packet_in`, reason NO_MATCH (its content is C18's subject) -/
-  | packetIn (inPort : Nat)
+  /-- table miss: `ofp_packet_in`, reason NO_MATCH, with the buffer id the frame was stored under (`none`: no room; the
+      data carried is C18's subject) -/
+  | packetIn (inPort : Nat) (bufferId : Option Nat)
+  /-- the frame stored under `id` is handed to `_process_actions_for_packet` with `actions`, and its slot is freed -/
+  | release (id : Nat) (frame : BFrame) (actions : List Action)
   | flowStats (l : List FlowStat)
   | aggStats (packets bytes flows : Nat)
   deriving DecidableEq, Repr
@@ -164,9 +209,14 @@ def packPlain (m : OfMatch) : OfMatch :=
     tpSrc := if tp then (m.view .tpSrc).getD 0 else 0,
     tpDst := if tp then (m.view .tpDst).getD 0 else 0 }
 
+/-- the match object a flow-mod's handlers see: `unpack(flow_mod=True)` of the transmitted record, then (repair C04-2)
+    `ofp.match.wildcards &= OFPFW_ALL` -/
+def rxMatch (cfg : Cfg) (r : OfMatch) : OfMatch :=
+  if cfg.maskUndefined then { ofWire r with wildcards := (ofWire r).wildcards &&& FW_ALL } else ofWire r
+
 /-- `TableEntry.from_flow_mod(flow_mod)` at time `now` -/
-def mkEntry (now : Nat) (fm : FlowModMsg) : FEntry :=
-  { priority := fm.priority, mtch := ofWire fm.mtch,
+def mkEntry (cfg : Cfg) (now : Nat) (fm : FlowModMsg) : FEntry :=
+  { priority := fm.priority, mtch := rxMatch cfg fm.mtch,
     data := { wire := fm.mtch, actions := fm.actions, cookie := fm.cookie, flags := fm.flags, idle := fm.idle, hard := fm.hard,
               created := now, touched := now, packets := 0, bytes := 0 } }
 
@@ -174,12 +224,17 @@ def outputsTo (p : Nat) : Action → Bool
   | .output q _ => q == p
   | .other _ _ => false
 
+/-- the strict test of `is_matched_by`: `self.match == match` at HEAD; with repair C04-1
+    `match.matches_with_wildcards(self.match) and self.match.matches_with_wildcards(match)` -/
+def strictMatch (cfg : Cfg) (entry m : OfMatch) : Bool :=
+  if cfg.strictMutual then m.matchesWith true entry && entry.matchesWith true m else eqMatch entry m
+
 /-- `entry.is_matched_by(match, priority, strict, out_port)` -/
-def isMatchedBy (e : FEntry) (m : OfMatch) (prio : Nat) (strict : Bool) (outPort : Option Nat) : Bool :=
+def isMatchedBy (cfg : Cfg) (e : FEntry) (m : OfMatch) (prio : Nat) (strict : Bool) (outPort : Option Nat) : Bool :=
   let portOk := match outPort with
     | none => true
     | some p => e.data.actions.any (outputsTo p)
-  if strict then portOk && eqMatch e.mtch m && e.priority == prio
+  if strict then portOk && strictMatch cfg e.mtch m && e.priority == prio
   else portOk && m.matchesWith true e.mtch
 
 /-- `touch_packet(byte_count, now)` -/
@@ -251,40 +306,64 @@ def emergCode (fm : FlowModMsg) : Nat :=
     (reason `None`: no flow-removed) -/
 def addBase (s : State) (fm : FlowModMsg) : Table EData :=
   match fm.cmd with
-  | .add => s.table.filter (fun e => !isMatchedBy e (ofWire fm.mtch) fm.priority true none)
+  | .add => s.table.filter (fun e => !isMatchedBy s.cfg e (rxMatch s.cfg fm.mtch) fm.priority true none)
   | _ => s.table
 
 /-- `_flow_mod_add` (also reached from `_flow_mod_modify` when nothing matched; `fm.cmd` tells which) -/
 def flowModAdd (s : State) (fm : FlowModMsg) : State × List Out :=
   if fm.flags.testBit FF_EMERG then flowModFailed s (emergCode fm)
-  else if fm.flags.testBit FF_CHECK_OVERLAP && overlapScan (mkEntry s.now fm).effectivePriority (ofWire fm.mtch) s.table then
+  else if fm.flags.testBit FF_CHECK_OVERLAP &&
+      overlapScan (mkEntry s.cfg s.now fm).effectivePriority (rxMatch s.cfg fm.mtch) s.table then
     flowModFailed s OFPFMFC_OVERLAP
   else if (addBase s fm).length ≥ s.maxEntries then flowModFailed { s with table := addBase s fm } OFPFMFC_ALL_TABLES_FULL
-  else ({ s with table := addEntry (mkEntry s.now fm) (addBase s fm) }, [])
+  else ({ s with table := addEntry (mkEntry s.cfg s.now fm) (addBase s fm) }, [])
 
 /-- `_flow_mod_modify(strict)` -/
 def flowModModify (s : State) (fm : FlowModMsg) (strict : Bool) : State × List Out :=
-  let m := ofWire fm.mtch
-  if s.table.any (fun e => isMatchedBy e m fm.priority strict none) then
+  let m := rxMatch s.cfg fm.mtch
+  if s.table.any (fun e => isMatchedBy s.cfg e m fm.priority strict none) then
     ({ s with table := s.table.map (fun e =>
-        if isMatchedBy e m fm.priority strict none then { e with data := { e.data with actions := fm.actions } } else e) }, [])
+        if isMatchedBy s.cfg e m fm.priority strict none then { e with data := { e.data with actions := fm.actions } } else e) }, [])
   else flowModAdd s fm
 
 /-- `_flow_mod_delete(strict)` → `remove_matching_entries(..., reason=OFPRR_DELETE)` → `_handle_FlowTableModification` -/
 def flowModDelete (s : State) (fm : FlowModMsg) (strict : Bool) : State × List Out :=
-  let m := ofWire fm.mtch
+  let m := rxMatch s.cfg fm.mtch
   let outPort := if fm.outPort = OFPP_NONE then none else some fm.outPort
-  let gone := s.table.filter (fun e => isMatchedBy e m fm.priority strict outPort)
-  ({ s with table := s.table.filter (fun e => !isMatchedBy e m fm.priority strict outPort) }, notify s.now OFPRR_DELETE gone)
+  let gone := s.table.filter (fun e => isMatchedBy s.cfg e m fm.priority strict outPort)
+  ({ s with table := s.table.filter (fun e => !isMatchedBy s.cfg e m fm.priority strict outPort) }, notify s.now OFPRR_DELETE gone)
 
-/-- `_rx_flow_mod` -/
-def flowModStep (s : State) (fm : FlowModMsg) : State × List Out :=
+/-- the handler `_rx_flow_mod` dispatches to (`flow_mod_handlers[ofp.command]`) -/
+def flowModHandler (s : State) (fm : FlowModMsg) : State × List Out :=
   match fm.cmd with
   | .add => flowModAdd s fm
   | .modify => flowModModify s fm false
   | .modifyStrict => flowModModify s fm true
   | .delete => flowModDelete s fm false
   | .deleteStrict => flowModDelete s fm true
+  | .unknown _ => flowModFailed s OFPFMFC_BAD_COMMAND
+
+/-- `_process_actions_for_packet_from_buffer(actions, buffer_id, ofp)`; `id` is the wire value (unsigned), Python's
+    `buffer_id - 1 < 0` is `id = 0` -/
+def bufferUse (s : State) (id : Nat) (actions : List Action) : State × List Out :=
+  if id = 0 ∨ id - 1 ≥ s.pool.slots.length then (s, [.error OFPET_BAD_REQUEST OFPBRC_BUFFER_UNKNOWN])
+  else match s.pool.slots.getD (id - 1) none with
+    | none => (s, [.error OFPET_BAD_REQUEST OFPBRC_BUFFER_EMPTY])
+    | some f => ({ s with pool := { s.pool with slots := s.pool.slots.set (id - 1) none } }, [.release id f actions])
+
+/-- the tail of `_rx_flow_mod`: an unknown command returns before it; otherwise — whatever the handler did, including a refusal —
+    a named buffer is released through the flow-mod's actions -/
+def bufferTail (s : State) (fm : FlowModMsg) : State × List Out :=
+  match fm.cmd, fm.bufferId with
+  | .unknown _, _ => (s, [])
+  | _, none => (s, [])
+  | _, some id => bufferUse s id fm.actions
+
+/-- `_rx_flow_mod` -/
+def flowModStep (s : State) (fm : FlowModMsg) : State × List Out :=
+  let r := flowModHandler s fm
+  let b := bufferTail r.1 fm
+  (b.1, r.2 ++ b.2)
 
 /-! ## traffic, time, statistics -/
 
@@ -300,17 +379,24 @@ def modifyFirst {α : Type} (p : α → Bool) (f : α → α) : List α → List
   | [] => []
   | x :: r => if p x then f x :: r else x :: modifyFirst p f r
 
-/-- `rx_packet`: `entry_for_packet` then `touch_packet(len(packet))`, or a packet-in on a miss -/
+/-- `rx_packet`: `entry_for_packet` then `touch_packet(len(packet))`; on a miss `_buffer_packet` and a packet-in -/
 def packetStep (s : State) (p : PHdr) (inPort len : Nat) : State × List Out :=
   let acc := Entry.accepts (α := EData) (fromPacket p inPort)
   if s.table.any acc then ({ s with table := modifyFirst acc (touch len s.now) s.table }, [])
-  else (s, [.packetIn inPort])
+  else
+    let a := alloc s.pool { hdr := p, len := len, inPort := inPort }
+    ({ s with pool := a.1 }, [.packetIn inPort a.2])
 
 def portFilter (outPort : Nat) : Option Nat := if outPort = OFPP_NONE then none else some outPort
 
-/-- `table.matching_entries(match, strict=False, out_port)` for a stats request (the request's match is `unpack`ed plainly) -/
+/-- the match object of a stats request: `unpack(flow_mod=False)`; with repair C04-3 then
+    `wildcards = _normalize_wildcards(_unwire_wildcards(wildcards))` -/
+def statsMatch (cfg : Cfg) (m : OfMatch) : OfMatch :=
+  if cfg.statsUnwire then ofWire (ofWirePlain m) else ofWirePlain m
+
+/-- `table.matching_entries(match, strict=False, out_port)` for a stats request -/
 def statsEntries (s : State) (m : OfMatch) (outPort : Nat) : List FEntry :=
-  s.table.filter (fun e => isMatchedBy e (ofWirePlain m) 0 false (portFilter outPort))
+  s.table.filter (fun e => isMatchedBy s.cfg e (statsMatch s.cfg m) 0 false (portFilter outPort))
 
 def step (s : State) : Op → State × List Out
   | .flowMod fm => flowModStep s fm
@@ -322,7 +408,8 @@ def step (s : State) : Op → State × List Out
     let es := statsEntries s m outPort
     (s, [.aggStats (es.map (·.data.packets)).sum (es.map (·.data.bytes)).sum es.length])
 
-def init (now maxEntries : Nat) : State := { table := [], now := now, maxEntries := maxEntries }
+def init (cfg : Cfg) (now maxEntries maxBuffers : Nat) : State :=
+  { table := [], now := now, maxEntries := maxEntries, pool := { slots := [], max := maxBuffers }, cfg := cfg }
 
 /-- the state after a history and everything written, step by step -/
 def run (s : State) : List Op → State × List (List Out)
